@@ -297,7 +297,15 @@ class Interp:
                         return r
                     hooked.add(id(e))
                     mine.append(("hooked", id(e)))
-                if not self._mentions_obj(e, env):
+                helper = False
+                if self.hook is not None and isinstance(e.func, ast.Name) and e.func.id not in env:
+                    # a helper function of the package is interpreted here (so that the rule's witnesses see the calls inside
+                    # it), not by the constant folder
+                    ref = self.ctx.folder.eval(e.func, self.module)
+                    helper = isinstance(ref, FuncRef) and isinstance(getattr(ref, "node", None), ast.FunctionDef)
+                    if helper:
+                        self.__dict__.setdefault("_nofold", set()).add(id(e))
+                if not helper and not self._mentions_obj(e, env):
                     v0 = self.ctx.folder.eval(e, self.module, env=env)
                     if isinstance(v0, frozenset) and isinstance(e.func, ast.Name) and e.func.id == "set":
                         return set(v0)  # a fresh mutable set (the folder's constants are immutable)
@@ -496,7 +504,7 @@ class Interp:
             recv = self.ctx.folder.eval(e.value, self.module, env=env)
             if isinstance(recv, ClassRef):
                 return Bound(recv.ci, e.attr)
-        if self._mentions_obj(e, env):
+        if self._mentions_obj(e, env) or id(e) in self.__dict__.get("_nofold", ()):
             v = UNKNOWN
         elif self.hook is not None and isinstance(e, (ast.List, ast.Tuple, ast.Dict, ast.Set, ast.ListComp, ast.GeneratorExp, ast.SetComp, ast.DictComp, ast.IfExp, ast.BinOp, ast.BoolOp)) and any(isinstance(x, ast.Call) for x in ast.walk(e)):
             v = UNKNOWN  # calls inside a display / comprehension / conditional are evaluated one by one so that the rule's witnesses see them
@@ -944,6 +952,11 @@ class Interp:
             if isinstance(st, ast.Expr):
                 if isinstance(st.value, ast.Constant):
                     return
+                if isinstance(st.value, ast.Yield) and getattr(self, "_yields", None) is not None:
+                    self._yields.append(self.ev(st.value.value, env, depth) if st.value.value is not None else None)
+                    if len(self._yields) >= self._yield_limit:
+                        raise _Return(None)
+                    return
                 self.effect(st.value, env, depth)
             elif isinstance(st, ast.Pass):
                 return
@@ -1184,3 +1197,16 @@ def _guard(fn):
         return "unknown", u.why
     except (ArithmeticError, TypeError, ValueError, KeyError, IndexError, AttributeError) as err:
         return "raise", type(err).__name__
+
+
+def run_generator(ctx, module, func, env, n, call_hook=None):
+    """The first n values a generator function yields on constants: ('return', [values]) - fewer than n when the generator ends -
+    | ('raise', name) | ('unknown', reason).  `yield` must be a statement of its own (a value sent in is not modelled)."""
+    it = Interp(ctx, module, call_hook)
+    it._yields, it._yield_limit = [], n
+
+    def go():
+        it.call(func, dict(env))
+        return list(it._yields)
+
+    return _guard(go)
